@@ -188,6 +188,9 @@ def build_with_gates(ir, r, gates):
                 if isinstance(acc, dict):
                     acc[x] = len(acc)
                     return sorted(acc)
+                if isinstance(acc, set):
+                    acc.add(x)
+                    return sorted(acc)
                 acc.append(x)
                 return list(acc)
             return visit
@@ -435,9 +438,9 @@ def gen_shared(rng, k):
         spec = ['Tuple', [['Fn', ['reprgate', 1]], ['Fn', ['gate', 1]], ['Str', 'zz__missing'], ['Fn', ['reprgate', 2]]]]
     calls = [{'target': {'k': 'dict', 'od': False, 'id': 900, 'items': [['who', 'caller-%d' % i], ['t', t]]}, 'spec': spec} for i in range(k)]
     if rng.random() < 0.3:
-        # the shared spec binds an EMPTY list / dict literal in its scope and a callable fills it in, with a yield point between
+        # the shared spec binds an EMPTY list / dict / set literal in its scope and a callable fills it in, with a yield point between
         # two visits: every call starts from its own empty container
-        acc = rng.choice([['List', []], ['Dict', False, []]])
+        acc = rng.choice([['List', []], ['Dict', False, []], ['Set', False, []]])
         visit = ['Call', ['Fn', ['visit']], [['T', 'T', []], ['T', 'S', [['.', ['Str', 'seen']]]]]]
         spec = ['Tuple', [['Bind', [['seen', acc]]], ['List', [['Tuple', [['Fn', ['gate', 1]], visit]]]]]]
         calls = [{'target': {'k': 'list', 'id': 900, 'items': ['c%d-a' % i, 'c%d-b' % i]}, 'spec': spec} for i in range(k)]
@@ -521,6 +524,13 @@ def gen_dictops(rng):
 def corpus():
     out = [{'kind': 'dictops', 'max': 5, 'star': True, 'threads': [['a'], ['a']], 'schedule': [0, 1, 1, 1, 0, 0, 0, 0, 1]},
            {'kind': 'dictops', 'max': 0, 'star': True, 'threads': [['a', 'b'], ['b', 'a']], 'schedule': [0, 1, 0, 1, 0, 1, 0, 1, 0, 1]}]
+    # one spec object shared by the calls binds an EMPTY list / dict / set literal that a callable fills in: each call has its own
+    visit = ['Call', ['Fn', ['visit']], [['T', 'T', []], ['T', 'S', [['.', ['Str', 'seen']]]]]]
+    for acc in (['List', []], ['Dict', False, []], ['Set', False, []]):
+        spec = ['Tuple', [['Bind', [['seen', acc]]], ['List', [['Tuple', [['Fn', ['gate', 1]], visit]]]]]]
+        calls = [{'target': {'k': 'list', 'id': 900, 'items': ['c%d-a' % i, 'c%d-b' % i]}, 'spec': spec} for i in range(2)]
+        for schedule in ([0, 1, 0, 1, 0, 1], [0, 0, 0, 0, 1, 1, 1, 1], []):
+            out.append({'kind': 'calls', 'shared_spec': True, 'calls': calls, 'schedule': schedule})
     return out
 
 
